@@ -245,6 +245,38 @@ func (g *Gen) totalConv(x d128.Decimal) Ev {
 	}
 }
 
+// every unary entry point on every stored exponent -41..41 (the implementation's power-of-ten tables end at 19, 34..39)
+// and at the range ends, both signs, the coefficient class drawn
+func (g *Gen) totalExpGrid(share float64) {
+	ops := []string{"Canonical", "String", "MarshalJSON", "Frexp", "Exp", "Exp2", "Exp10", "Expm1", "Log", "Log2", "Log10", "Log1p", "Sqrt", "Cbrt",
+		"PkgRound", "PkgTrunc", "PkgCeil", "PkgFloor", "Float64", "Float32", "Rat", "Int", "ToInt:int64", "ToInt:uint64", "ToInt:int32", "ToInt:uint32"}
+	var exps []int
+	for e := -41; e <= 41; e++ {
+		exps = append(exps, e)
+	}
+	exps = append(exps, eMin, eMin+1, eMax-1, eMax)
+	one := big.NewInt(1)
+	coefs := []*big.Int{big.NewInt(1), big.NewInt(9999), pow10(18), new(big.Int).Lsh(one, 64), pow10(33), pow10(34), cMax}
+	g.gridRun(len(ops)*len(exps)*2, share, func(i int) {
+		neg := i%2 == 1
+		i /= 2
+		ex := exps[i%len(exps)]
+		op := ops[i/len(exps)]
+		c := coefs[g.r.Intn(len(coefs))]
+		if (ex < -41 || ex > 41) && (op == "Rat" || op == "Int" || op == "Float64" || op == "Float32") && g.r.Intn(4) != 0 {
+			return
+		}
+		var e Ev
+		if strings.HasPrefix(op, "ToInt:") {
+			e = Ev{"op": "ToInt", "ty": op[6:]}
+		} else {
+			e = Ev{"op": op}
+		}
+		e.setDec("x", mk(neg, c, ex))
+		g.emitDet(e)
+	})
+}
+
 // every unary entry point on every (coefficient class x stored exponent class), both signs: panics hide in the
 // combination of a particular entry point with a particular exponent field (0, the 19-digit steps, the range ends)
 func (g *Gen) totalGrid(share float64) {
@@ -355,7 +387,9 @@ func (g *Gen) concurrent(G, ncalls int) {
 	}
 	// each batch concentrates on two or three kinds of call (with different arguments), so that state shared inside
 	// one entry point -- a cache, a scratch buffer -- is hit by different arguments at the same time
-	kinds := []int{g.r.Intn(14), g.r.Intn(14)}
+	// the first kind goes round robin over the batches of all shards, so that every kind is the theme of several batches
+	g.batch++
+	kinds := []int{(g.batch + 5*g.shard) % 14}
 	if g.r.Intn(2) == 0 {
 		kinds = append(kinds, g.r.Intn(14))
 	}
@@ -419,7 +453,20 @@ func genC20(g *Gen) {
 	g.setMode(0)
 	budget := g.w.max
 	g.w.max = budget / 2
-	g.totalGrid(0.5)
+	g.totalGrid(0.34)
+	g.totalExpGrid(0.5)
+	// Compose with long coefficients that reduce by powers of ten (the reduction loops touch the caller's slice)
+	lg := tailGrid(longJs)
+	g.gridRun(len(lg), 0.05, func(i int) {
+		if lg[i].rest != restZeros || lg[i].guard != 0 {
+			return
+		}
+		c := g.longTailInt(lg[i])
+		sig := append(make([]byte, g.r.Intn(3)), c.Bytes()...)
+		e := Ev{"op": "Compose", "form": 0, "neg": g.r.Intn(2) == 0, "sig": ints(sig), "exp": g.r.Intn(41) - 20 - lg[i].j/2}
+		e.setDec("prev", randAny(g.r))
+		g.emitDet(e)
+	})
 	for !g.w.full() {
 		if g.r.Intn(40) == 0 {
 			g.setMode(g.r.Intn(6))
